@@ -58,7 +58,15 @@ pub fn audit_points(ex: &mut Exec) -> R<()> {
     let is_blob = ex.is_blob();
     let thr = ex.blob_threshold();
     let mut n = 0u64;
+    // big pools: every key after each version change, a rotating window of 96 keys otherwise
+    let total = ex.keys.len();
+    let full = total <= 128 || ex.layout_changed;
+    let win_start = (ex.op_no * 61) % total.max(1);
+    ex.layout_changed = false;
     for (i, k) in ex.keys.iter().enumerate() {
+        if !full && (i + total - win_start) % total >= 96 {
+            continue;
+        }
         let got = get_vec(&t, k, s)?;
         let exact = check_point(&ex.model, k, s, &got, "get")?;
         n += 1;
@@ -224,10 +232,36 @@ pub fn snapshot_view(ex: &Exec, s: SeqNo) -> R<SnapView> {
         points.push(get_vec(t, k, s)?);
     }
     let scan = full_scan(t, s)?;
-    Ok(SnapView { points, scan })
+    // the prefix entry point is separate code in both tree types: use it too, from the back
+    let p = snap_prefix(ex);
+    let mut pscan = vec![];
+    for g in t.prefix(&p, s, None).rev() {
+        pscan.push(guard_kv(g)?);
+    }
+    pscan.reverse();
+    Ok(SnapView { points, scan, pscan })
+}
+
+pub fn snap_prefix(ex: &Exec) -> Vec<u8> {
+    ex.keys[ex.keys.len() / 2][..1].to_vec()
 }
 
 pub fn check_view(ex: &Exec, s: SeqNo, v: &SnapView) -> R<()> {
+    {
+        let p = snap_prefix(ex);
+        let exp: Vec<&(Key, Vec<u8>)> = v.scan.iter().filter(|(k, _)| k.starts_with(&p)).collect();
+        let got: Vec<&(Key, Vec<u8>)> = v.pscan.iter().collect();
+        if exp != got {
+            return Err(format!(
+                "prefix({}) at snapshot {s} yields {} items {:?} but the full scan at the same snapshot restricted to the prefix has {} items {:?}",
+                hex(&p),
+                got.len(),
+                got.iter().map(|x| hex(&x.0)).collect::<Vec<_>>(),
+                exp.len(),
+                exp.iter().map(|x| hex(&x.0)).collect::<Vec<_>>()
+            ));
+        }
+    }
     for (k, got) in ex.keys.iter().zip(v.points.iter()) {
         check_point(&ex.model, k, s, got, "snapshot get")?;
     }
